@@ -228,6 +228,10 @@ func stdCall(e *ssaEval, call ssa.CallInstruction, args []sv) (sv, bool) {
 		if a, ok := str(0); ok {
 			return boolV(utf8.ValidString(a)), true
 		}
+	case "unicode/utf8.ValidRune":
+		if r, ok := num(0); ok && r >= -1<<31 && r < 1<<31 {
+			return boolV(utf8.ValidRune(rune(r))), true
+		}
 	case "unicode/utf8.DecodeRuneInString":
 		if a, ok := str(0); ok {
 			r, n := utf8.DecodeRuneInString(a)
